@@ -556,6 +556,13 @@ class C20(Check):
                         m = parse_rat(o.split()[0])
                         ctx.case(("exp", sid, j["name"], ti, cat_tok(cat)), nontriv)
                         ctx.count("expected_demand")
+                        ctx.count("expected_demand_%s" % ("default_args" if not kw else "explicit_window"))
+                        if cat:
+                            cs = [c for (_, _, c) in j["demands"]]
+                            ctx.count("expected_demand_category_%s" % ("selects_some" if (cat in cs and any(c != cat for c in cs)) else
+                                                                         "selects_all" if (cs and all(c == cat for c in cs)) else "selects_none"))
+                        elif kw:
+                            ctx.count("expected_demand_category_%s" % ("empty_string" if cat == "" else "None"))
                         if not close(impl, m, scale=jscale[j["name"]]):
                             key = "expected_demand-pattern-start" if pstart != 0 else "expected_demand-value"
                             fail(key, "expected_demand(%s)[%s][t=%d] = %r, base x pattern(t + pattern_start) x multiplier = %r (pattern_start=%s)"
@@ -859,6 +866,18 @@ class C20(Check):
                         fail("water_service_availability-value", "WSA(sum)[%s] = %r, documented = %s" % (n, impl, o), {"call": "wsa-series"})
 
                 reqs.add("wsa %s %s" % (fs(float(act[n].sum())), fs(float(exp[n].sum()))), cbs)
+            # Series indexed by time: average over the junctions at each time
+            wt = wntr.metrics.water_service_availability(exp.sum(axis=1), act.sum(axis=1))
+            for tt in times:
+                impl = float(wt.loc[tt])
+
+                def cbt(o, impl=impl, tt=tt):
+                    ctx.case(("wsa-time", sid, tt), True)
+                    ctx.count("wsa_series_by_time")
+                    if (o == "nan" and not math.isnan(impl)) or (o != "nan" and not close(impl, parse_rat(o))):
+                        fail("water_service_availability-value", "WSA(sums over junctions)[t=%d] = %r, documented = %s" % (tt, impl, o), {"call": "wsa-series-time"})
+
+                reqs.add("wsa %s %s" % (fs(float(act.loc[tt, :].sum())), fs(float(exp.loc[tt, :].sum()))), cbt)
         except Exception as e:
             fail("water_service_availability-exception", "water_service_availability raised %s: %s" % (type(e).__name__, e), {"call": "wsa"})
         # pump power / energy / cost
@@ -1023,6 +1042,42 @@ class C20(Check):
                          {"call": "WNTRSimulator vs expected_demand", "junction": j["name"], "t": int(tt), "simulated": a, "metric": b})
                     return
 
+    # ------------------------------------------------------------------ degenerate networks
+    def degenerate(self, ctx, fails):
+        """no junction at all / nothing but a reservoir: every metric returns its empty or zero value, nothing raises"""
+        import pandas as pd
+
+        wntr = vlib.import_wntr()
+        for kind in ("empty", "reservoir-only"):
+            wn = wntr.network.WaterNetworkModel()
+            if kind == "reservoir-only":
+                wn.add_reservoir("R0", base_head=50.0)
+            nodes = wn.node_name_list
+            one = lambda v: pd.DataFrame({n: [v] for n in nodes}, index=[0])
+            calls = [
+                ("expected_demand", lambda: wntr.metrics.expected_demand(wn).shape, lambda r: r[1] == 0),
+                ("average_expected_demand", lambda: len(wntr.metrics.average_expected_demand(wn)), lambda r: r == 0),
+                ("population", lambda: len(wntr.metrics.population(wn)), lambda r: r == 0),
+                ("annual_network_cost", lambda: wntr.metrics.annual_network_cost(wn), lambda r: r == 0),
+                ("annual_ghg_emissions", lambda: wntr.metrics.annual_ghg_emissions(wn), lambda r: r == 0),
+                # no junction: 0/0 without a reservoir (NaN), 0/(-d h) with one
+                ("todini_index", lambda: float(wntr.metrics.todini_index(one(40.0), one(10.0), one(-0.01), pd.DataFrame(index=[0]), wn, 20).iloc[0]),
+                 lambda r: math.isnan(r) if kind == "empty" else r == 0.0),
+                ("tank_capacity", lambda: wntr.metrics.tank_capacity(pd.DataFrame(index=[0]), wn).shape, lambda r: r[1] == 0),
+                ("pump_power", lambda: wntr.metrics.pump_power(pd.DataFrame(index=[0]), one(40.0), wn).shape, lambda r: r[1] == 0),
+            ]
+            for nm, f, good in calls:
+                ctx.case(("degenerate", kind, nm), True)
+                ctx.count("degenerate_network_calls")
+                try:
+                    r = f()
+                except Exception as e:
+                    fails.append(Failure(nm + "-exception-degenerate-network", "%s on a network that is %s raised %s: %s" % (nm, kind, type(e).__name__, e),
+                                         {"call": nm, "network": kind}))
+                    continue
+                if not good(r):
+                    fails.append(Failure(nm + "-value-degenerate-network", "%s on a network that is %s gave %r" % (nm, kind, r), {"call": nm, "network": kind}))
+
     # ------------------------------------------------------------------ pattern probes
     def pattern_probes(self, ctx, reqs, fails):
         wntr = vlib.import_wntr()
@@ -1073,6 +1128,7 @@ class C20(Check):
             self.run_spec(ctx, item["spec"], reqs, fails, with_sim=True, label="corpus:" + fn)
             ctx.count("corpus_items")
         self.pattern_probes(ctx, reqs, fails)
+        self.degenerate(ctx, fails)
         n = 40 if ctx.quick else 400
         nsim = 0
         for i in range(n):
